@@ -150,7 +150,9 @@ class C19:
     variants = ("asan",)
     rule = ("schemas (hand-built and random: all option kinds incl. FUNC/PTR, unset scalars, empty lists, multi sections with "
             "0-3 instances, depth <= 4) x states reached by parsing (with single-line annotations) x filter predicates "
-            "(hide-sets of names, 8 distinct predicates) installed on any subset of {root, each section instance} x any "
+            "(hide-sets of names, 8 distinct predicates) installed on any subset of {root, each section instance}, optionally "
+            "preceded by a filter history (a predicate installed on the root or a plain section before the parse creates "
+            "instances, then kept, removed or replaced) x any "
             "subset of option instances carrying a print callback x entry points cfg_print, cfg_print_indent(n), "
             "cfg_opt_print, cfg_opt_print_indent(n). Oracle: printer model yields the expected sequence of (depth, line); the "
             "output is split at newlines outside quotes, indentation mapped to depth with one consistent unit, blanks "
@@ -170,6 +172,33 @@ class C19:
         s = Script()
         emit_schema(s, 0, schema)
         s.add("init", 1, 0, flags)
+        # filter history: predicates installed before the parse creates section instances, later kept, removed or replaced;
+        # the effective filter at print time is a function of the filters installed *then*
+        early = []
+        allnames = []
+
+        def collect(opts):
+            for d in opts:
+                allnames.append(d["n"])
+                if d.get("sub"):
+                    collect(d["sub"])
+        collect(schema)
+        plain_secs = [o.d["n"] for o in m.root.opts if o.kind == "sec" and not (o.d["f"] & (F_MULTI | F_NODEFAULT)) and len(o.vals) == 1]
+        cands = [None] + plain_secs
+        used = set()
+        for j, (pos, hide, fate) in enumerate(case.get("early", [])[:2]):
+            which = cands[int(pos * len(cands)) % len(cands)]
+            if which in used:
+                continue
+            used.add(which)
+            hs = sorted(set(allnames[int(f * len(allnames)) % len(allnames)] for f in hide)) if allnames else []
+            if which is None:
+                eh = 1
+            else:
+                eh = 8 - j
+                s.add("getnsec", 1, hx(which), 0, eh)
+            s.add("filterk", eh, 7 - j, len(hs), *[hx(n) for n in hs])
+            early.append((which, eh, hs, fate, j))
         ip = s.add("parse_buf", 1, hx(text))
         secs = [(1, m.root, 0)]
         nh = [10]
@@ -198,10 +227,27 @@ class C19:
         walk(m.root, 1, 0)
         # choose filters and print callbacks from the case's fractions
         filters, pfs = {}, {}
+        ecl = []
+        for which, eh, hs, fate, j in early:
+            if which is None:
+                msec = m.root
+            else:
+                msec = [o for o in m.root.opts if o.d["n"] == which][0].vals[0]
+            if fate == 0:
+                filters[id(msec)] = set(hs)
+                ecl.append("filter/early-kept")
+            elif fate == 1:
+                s.add("filterk", eh, -1, 0)
+                ecl.append("filter/early-removed")
+            else:
+                hs2 = sorted(set(allnames) - set(hs))[:3]
+                filters[id(msec)] = set(hs2)
+                s.add("filterk", eh, 5 - j, len(hs2), *[hx(n) for n in hs2])
+                ecl.append("filter/early-replaced")
         fsel = case.get("filters", [])
         k = 0
         for (pos, hide) in fsel:
-            if k >= 8 or not secs:
+            if k >= 4 or not secs:
                 break
             h, msec, depth = secs[int(pos * len(secs)) % len(secs)]
             if id(msec) in filters:
@@ -271,9 +317,9 @@ class C19:
         maxdepth = max(d for _, _, d in secs)
         inner_only = any(id(ms) in filters for h, ms, d in secs if d >= 1) and id(m.root) not in filters
         root_only = id(m.root) in filters and len(filters) == 1
-        nt = (maxdepth >= 2 and (inner_only or root_only)) or bool(pfs)
+        nt = (maxdepth >= 2 and (inner_only or root_only)) or bool(pfs) or (bool(ecl) and maxdepth >= 1)
         cl = ["depth%d" % min(maxdepth, 4)] + (["filter/inner-only"] if inner_only else []) + (["filter/root-only"] if root_only else []) + \
-             (["filters>=2"] if len(filters) >= 2 else []) + (["print-callback"] if pfs else [])
+             (["filters>=2"] if len(filters) >= 2 else []) + (["print-callback"] if pfs else []) + sorted(set(ecl))
         sample = {"flags": flags, "text": text[:200], "filters": [sorted(v) for v in filters.values()], "callbacks": len(pfs)}
         if not r.clean:
             return Outcome(failure=Failure("die/%s" % r.death(), "child died: %s\n%s" % (r.death(), r.stderr.decode("latin-1")[:1200])),
@@ -339,6 +385,7 @@ class C19:
             c = {"schema": sc, "flags": flags, "tokens": toks,
                  "filters": draw(st.lists(st.tuples(frac, st.lists(frac, max_size=3)), max_size=4)),
                  "pfs": draw(st.lists(st.tuples(frac, frac), max_size=4)),
+                 "early": draw(st.lists(st.tuples(frac, st.lists(frac, min_size=1, max_size=3), st.integers(0, 2)), max_size=2)),
                  "oprints": draw(st.lists(st.tuples(frac, frac), max_size=3)),
                  "indent": draw(st.integers(0, 3))}
             if sc == "c19" and draw(st.booleans()):
